@@ -2,6 +2,7 @@ package schedsim
 
 import (
 	"fmt"
+	"os"
 	"runtime/debug"
 	"sort"
 	"strings"
@@ -111,7 +112,12 @@ func runCase(t *testing.T, rt *rapid.T, p *profile) *caseResult {
 		w.invPaths = p.invPaths
 		w.fixedPriority = p.fixedPrio
 		w.m.observe()
-		n := rapid.IntRange(p.minSteps, p.maxSteps).Draw(rt, "steps")
+		maxSteps := p.maxSteps
+		if os.Getenv("VERIF_TIER") == "thorough" {
+			// Deeper histories in the thorough tier.
+			maxSteps = maxSteps * 5 / 2
+		}
+		n := rapid.IntRange(p.minSteps, maxSteps).Draw(rt, "steps")
 		for i := 0; i < n; i++ {
 			w.stepNo++
 			op := rapid.SampledFrom(p.ops).Draw(rt, "op")
